@@ -187,7 +187,7 @@ class Delta:
 
 
 
-def additive_terms(fn: FunctionInfo, e: ast.AST | None):
+def additive_terms(fn: FunctionInfo, e: ast.AST | None, _depth: int = 0):
     """The value of `e` as a sum of terms, whatever way it is accumulated:
     `a + sum(f(x) for x in C)`, or `v = a` followed by `for x in C: v += f(x)`.
     Terms: ("len", coll) | ("sum", coll, elt with `_`) | ("expr", text);
@@ -210,6 +210,12 @@ def additive_terms(fn: FunctionInfo, e: ast.AST | None):
             return [("sum", ast.unparse(g.iter), elt)]
         if isinstance(x, ast.Constant) and x.value == 0:
             return []
+        # a local that is itself accumulated (sub-totals named first)
+        if isinstance(x, ast.Name) and x.id not in fn.params() and \
+                _depth < 3 and x.id != getattr(e, "id", None):
+            sub = additive_terms(fn, x, _depth + 1)
+            if sub is not None:
+                return sub
         return [("expr", ast.unparse(x))]
 
     if e is None:
@@ -596,9 +602,24 @@ def check_dump(ctx: Context, rep, rule: str) -> None:
     fill = [c for c in gfn.calls() if isinstance(c.func, ast.Attribute) and
             c.func.attr == "append" and isinstance(c.func.value, ast.Subscript)
             and dotted(c.func.value.value) == gvar]
+    # ... or a plain dict filled by G.setdefault(key, []).append(x)
+    fill_sd = [c for c in gfn.calls() if isinstance(c.func, ast.Attribute) and
+               c.func.attr == "append" and isinstance(c.func.value, ast.Call)
+               and isinstance(c.func.value.func, ast.Attribute) and
+               c.func.value.func.attr == "setdefault" and
+               dotted(c.func.value.func.value) == gvar and
+               len(c.func.value.args) == 2 and not c.func.value.keywords and
+               isinstance(c.func.value.args[1], ast.List) and
+               not c.func.value.args[1].elts]
+    if not fill and fill_sd:
+        fill = fill_sd
+        ok_group = (isinstance(gdef, ast.Dict) and not gdef.keys) or (
+            isinstance(gdef, ast.Call) and ast.unparse(gdef.func) == "dict"
+            and not gdef.args and not gdef.keywords)
     if fill:
         from sa.norm import canon
-        key = fill[0].func.value.slice
+        key = fill[0].func.value.slice if isinstance(
+            fill[0].func.value, ast.Subscript) else fill[0].func.value.args[0]
         floop = parent(parent(fill[0]))
         ktext = canon(gfn, key)
         if isinstance(key, ast.Name) and isinstance(floop, ast.For):
